@@ -1,33 +1,45 @@
 package main
 
 func init() {
-	register("C35", "Static guarded-by analysis of lrucache.LRUCache: must-hold lock dataflow over the SSA CFG of every function of the package. "+
+	register("C35", "guarded-by must-hold lock dataflow on SSA (R-LOCKS L1-L5)", "Static guarded-by analysis of lrucache.LRUCache: must-hold lock dataflow over the SSA CFG of every function of the package. "+
 		"Decides: every access to cache/lruList happens under the embedded RWMutex (L1), every mutation (map store/delete, container/list mutators) under the exclusive lock (L2), no re-entrant acquisition (L3), one critical section per operation (L4). "+
 		"These are necessary for race-freedom and atomicity (hence linearizability) of Get/Put. Not decided: the sequential LRU semantics (eviction order, capacity accounting); container/list is trusted.",
+		"container/list trusted and known to be unsynchronised; frozen guarded-by table and mutator-name table", "DESIGN.md §3 R-LOCKS; §4 C35",
 		func(c *Ctx) {
 			c.load("lib/utils/lru-cache")
 			c.doc("R-LOCKS", "L1 read under lock, L2 write under exclusive lock, L3 no re-acquisition, L4 single critical section; table: LRUCache{cache,lruList} guarded by embedded sync.RWMutex")
-			c.ruleLocks(lockSpec{dir: "lib/utils/lru-cache", typ: "LRUCache", guarded: []string{"cache", "lruList"}, rule: "R-LOCKS"})
+			c.ruleLocks(lockSpec{dir: "lib/utils/lru-cache", typ: "LRUCache", guarded: []string{"cache", "lruList"}, rule: "R-LOCKS", l5: true})
 			c.min("R-LOCKS/L1", 2)
 			c.min("R-LOCKS/L2", 5)
 			c.min("R-LOCKS/L4", 2)
 			c.assume("container/list is not itself synchronised and its mutators are exactly the tabled method names")
 			c.notDecides("sequential LRU behaviour (which entry is evicted, recency order)")
 		})
-	register("C34", "Static guarded-by analysis of transaction.PriorityQueue (+ comparator table for priorityQueue.Less). "+
+	register("C34", "guarded-by must-hold lock dataflow on SSA (R-LOCKS L1-L5) + comparator truth-table evaluation + FIFO-counter/duplicate dominance rules", "Static guarded-by analysis of transaction.PriorityQueue (+ comparator table for priorityQueue.Less). "+
 		"Decides: all accesses to pq/txs/currOrder are under the Mutex (L1/L2), no re-entrant locking (L3), one critical section per operation (L4), duplicates test dominates heap.Push under the same lock, Less == (priority desc, order asc). "+
 		"Not decided: container/heap correctness, the full linearizability of histories (only its structural necessary conditions).",
+		"container/heap trusted; frozen guarded-by table", "DESIGN.md §3 R-LOCKS, R-CMP; §4 C34",
 		func(c *Ctx) {
 			c.load("lib/transaction")
 			c.doc("R-LOCKS", "table: PriorityQueue{pq,txs,currOrder} guarded by embedded sync.Mutex; Pool{transactions} cross-reference only")
-			c.ruleLocks(lockSpec{dir: "lib/transaction", typ: "PriorityQueue", guarded: []string{"pq", "txs", "currOrder"}, rule: "R-LOCKS",
-				l4Exempt: map[string]string{"transaction.(*PriorityQueue).PopWithTimer": "polling wrapper: each Pop is its own linearizable operation by design",
-					"transaction.(*PriorityQueue).PopWithTimer$1": "polling goroutine: each Pop is its own linearizable operation by design"}})
+			c.ruleLocks(lockSpec{dir: "lib/transaction", typ: "PriorityQueue", guarded: []string{"pq", "txs", "currOrder"}, rule: "R-LOCKS", l5: true,
+				l4Exempt: map[string]string{"(*PriorityQueue).PopWithTimer": "polling wrapper: each Pop is its own linearizable operation by design",
+					"(*PriorityQueue).PopWithTimer$1": "polling goroutine: each Pop is its own linearizable operation by design"}})
 			c.min("R-LOCKS/L1", 5)
 			c.min("R-LOCKS/L2", 6)
 			c.min("R-LOCKS/L4", 6)
 			c.ruleLocks(lockSpec{dir: "lib/transaction", typ: "Pool", guarded: []string{"transactions"}, rule: "R-LOCKS-POOL",
 				xrefOnly: map[string]bool{"L1": true, "L2": true, "L3": true, "L4": true}})
+			c.ruleQueue()
+			c.min("R-FIFO", 3)
+			c.min("R-DUP", 4)
+			less := c.fn("lib/transaction", "priorityQueue.Less")
+			if less != nil {
+				c.ruleCmpTable("R-CMP/spec", "priorityQueue.Less", less, []string{"priority", "order"}, elemFieldAttr(less.Params[1:]),
+					func(s map[string]int) any { return s["priority"] > 0 || (s["priority"] == 0 && s["order"] < 0) },
+					"Less(i,j) <=> priority_i > priority_j || (priority_i == priority_j && order_i < order_j)")
+			}
+			c.min("R-CMP/spec", 9)
 			c.assume("container/heap is correct; heap.Interface methods of priorityQueue are only invoked through container/heap or under the lock")
 			c.notDecides("full linearizability of concurrent histories; only race-freedom/atomicity structure")
 		})
